@@ -5,7 +5,7 @@ from .common import both
 
 ID = 'C05'
 TARGETS = ['theories/Properties/C05.vo']
-THEOREMS = ['C05_bytes_retained', 'C05_end_bytes_retained', 'C05_start_fields', 'C05_optional_presence', 'C05_players', 'C05_end', 'C05_json_omits_absent', 'C05_json_end_omits_absent']
+THEOREMS = core.theorems_of(ID)
 LEVEL = ('hand model of game_start/player/game_end and of the serde renderings; proved: raw block retained, every exposed field is the value at '
          'its spec offset, optional tails present iff the block is long enough, players = ports 1-4 with type 0/1/2 in order, JSON omits exactly '
          'the absent optionals; model, implementation and an independent Python transcription of the spec are compared on random blocks, every '
